@@ -7,7 +7,7 @@
 /// Targets tables: (string handed to the parser or "", builder calls applied afterwards in
 /// order: (Some(target), level) = with_target, (None, level) = with_default).  Tables 5.. add
 /// the same key twice (more verbose / less verbose the second time; by string and by builder).
-const TARGET_TABLES: [(&str, &[(Option<&str>, usize)]); 13] = [
+const TARGET_TABLES: [(&str, &[(Option<&str>, usize)]); 15] = [
     ("", &[]),
     ("", &[(Some("app"), 3)]),
     ("", &[(Some("app"), 4), (Some("app::db"), 5)]),
@@ -22,6 +22,9 @@ const TARGET_TABLES: [(&str, &[(Option<&str>, usize)]); 13] = [
     ("app=trace,app=warn,error", &[]),
     ("warn,net=error,debug", &[]),
     ("", &[(Some("net"), 1), (Some("net"), 5), (Some("app"), 4), (Some("app"), 2)]),
+    // parsed strings with a field-name directive (every pool callsite declares the field `id`)
+    ("app[{id}]=debug,app=warn", &[]),
+    ("app[{id}]=off,app=debug,error", &[]),
 ];
 fn mk_targets(i: usize) -> Targets {
     let (parsed, ops) = TARGET_TABLES[i];
@@ -329,7 +332,9 @@ impl FE {
         out.insert(match self {
             FE::Level(_) => "LevelFilter",
             FE::Targets(i) => {
-                if *i >= 5 {
+                if *i >= 13 {
+                    "Targets(parsed, with a field-name directive)"
+                } else if *i >= 5 {
                     "Targets(key added twice)"
                 } else {
                     "Targets"
